@@ -20,7 +20,7 @@ fn info0_num(i: &str) -> u64 {
 fn code_num(code: &str) -> u32 {
     match code {
         "av" => 0xC000_0005, "inpage" => 0xC000_0006, "fastfail" => 0xC000_0409, "general" => 0x8000_0003, "oom" => 0xE000_0008, "cpp" => 0xE06D_7363, "simulated" => 0x0517_A7ED,
-        "ntstatus" => 0xC000_0374, "winerror" => 2, "facility" => 0xC06D_007E, "wfacunk" => 0x8007_0002, "wunknown" => 0x2BAD_BEEF,
+        "ntstatus" => 0xC000_0374, "winerror" => 2, "facility" => 0xC06D_007E, "facility_lowsev" => 0x206D_007E, "wfacunk" => 0x8007_0002, "wunknown" => 0x2BAD_BEEF,
         "SIGILL" => 4, "SIGTRAP" => 5, "SIGABRT" => 6, "SIGBUS" => 7, "SIGFPE" => 8, "SIGUSR1" => 10, "SIGSEGV" => 11, "SIGSYS" => 31, "lunknown" => 200,
         "EXC_BAD_ACCESS" => 1, "EXC_BAD_INSTRUCTION" => 2, "EXC_ARITHMETIC" => 3, "EXC_EMULATION" => 4, "EXC_SOFTWARE" => 5, "EXC_BREAKPOINT" => 6, "SIMULATED" => 0x4350_7378, "munknown" => 10,
         _ => panic!("code {}", code),
@@ -115,5 +115,39 @@ fn main() {
         if info.address.0 != want_addr { rep.mismatch(&format!("crashreason:address:{}", os), json!({"case": c, "expected": format!("{:#x}", want_addr), "observed": format!("{:#x}", info.address.0)})); return; }
         if shape == "mac_kind" && cpu == "ppc" { rep.sample(json!({"case": c, "reason": got})); }
     });
+    // ---- OS version and build strings (MinidumpSystemInfo::os_parts, handed on unchanged): the numeric version and the CSD string, except that a
+    // Linux dump with version 0.0.0 takes both from the uname text "Linux [version] [build...] [arch] [Linux/GNU]" - the build part verbatim
+    let table: [(&str, (u32, u32, u32), &str, &str, Option<&str>); 7] = [
+        ("linux", (0, 0, 0), "Linux 5.4.0-42-generic #46-Ubuntu SMP Fri Jul 10 00:24:02 UTC 2020 x86_64", "5.4.0-42-generic", Some("#46-Ubuntu SMP Fri Jul 10 00:24:02 UTC 2020")),
+        ("linux", (0, 0, 0), "Linux 5.4.0 #1 SMP Sat Nov  7 10:00:00 UTC 2020 x86_64", "5.4.0", Some("#1 SMP Sat Nov  7 10:00:00 UTC 2020")),
+        ("linux", (0, 0, 0), "Linux 3.10.0 #1 SMP x86_64 Linux/GNU", "3.10.0", Some("#1 SMP")),
+        ("linux", (0, 0, 0), "Linux 5.4.0-42-generic", "5.4.0-42-generic", Some("")),
+        ("linux", (5, 4, 3), "Linux 5.4.3 #1 SMP x86_64", "5.4.3", Some("Linux 5.4.3 #1 SMP x86_64")),
+        ("windows", (10, 0, 19041), "Service Pack 1", "10.0.19041", Some("Service Pack 1")),
+        ("android", (0, 0, 0), "Linux 4.14.0 #1 SMP aarch64", "0.0.0", Some("Linux 4.14.0 #1 SMP aarch64")),
+    ];
+    for (os, ver, csd, want_ver, want_build) in table {
+        let mut spec = DumpSpec { os: os.into(), cpu: "amd64".into(), ..DumpSpec::default() };
+        spec.threads.push(ThreadSpec { id: 1, ctx_ok: false, name: None, ip: 0x400100, sp: 0x10000, stack_base: 0x10000, stack: vec![0u8; 16] });
+        spec.csd = Some(csd.to_string());
+        spec.os_version = Some(ver);
+        let bytes = build(&spec);
+        rep.evaluations += 1;
+        rep.class("os-strings");
+        let res = guarded(|| {
+            let dump = Minidump::read(&bytes[..]).map_err(|e| format!("read: {:?}", e))?;
+            let provider = Symbolizer::new(string_symbol_supplier(HashMap::new()));
+            block_on(Box::pin(process_minidump(&dump, &provider))).map_err(|e| format!("process: {:?}", e))
+        });
+        match res {
+            Ok(Ok(state)) => {
+                let got = (state.system_info.os_version.clone(), state.system_info.os_build.clone());
+                let want = (Some(want_ver.to_string()), want_build.map(|b| b.to_string()));
+                if got != want { rep.mismatch("crashreason:os-strings", json!({"os": os, "numeric_version": format!("{:?}", ver), "csd": csd, "expected": want, "observed": got})); }
+            }
+            Ok(Err(e)) => rep.mismatch("crashreason:error", json!({"csd": csd, "error": e})),
+            Err(p) => rep.mismatch(&format!("crashreason:panic:{}", p), json!({"csd": csd})),
+        }
+    }
     rep.finish();
 }
